@@ -167,10 +167,46 @@ inductive WalkAct where
   | skip (ws : WalkSt)                         -- nothing archived for this item
   | add (ws : WalkSt) (relp name : Str)        -- archive it under `name`, remember `relp` as seen
 
+/-- is this item beneath a directory whose walk was cut with SkipDir -/
+def skipping (sd : Option Nat) (depth : Nat) : Bool :=
+  match sd with
+  | some d => decide (depth > d)
+  | none => false
+
+/-- the exclusion verdict for `relp` with the ancestor stack, and the stack afterwards -/
+def verdictOf (o : PackOpts) (inc relp : Str) (isDir : Bool) (ws : WalkSt) : Bool × WalkSt :=
+  if inc ≠ relp then
+    let stack1 := ws.stack.dropWhile (fun top => !hasPrefix relp (top.1 ++ slashStr))
+    let parentInfo : List Bool := match stack1 with | top :: _ => top.2 | [] => []
+    let (sk, info) := mur o.pats relp parentInfo
+    (sk, { ws with stack := if isDir then (relp, info) :: stack1 else stack1 })
+  else (false, ws)
+
+/-- what happens to an item once its verdict is known: pruned, skipped, already seen, or archived -/
+def walkFinish (o : PackOpts) (inc : Str) (depth : Nat) (isDir : Bool) (st : PackState) (relp : Str)
+    (skip : Bool) (ws1 : WalkSt) : WalkAct :=
+  if skip then
+    if !isDir then .skip ws1
+    else if !hasExclusions o then .skip { ws1 with skipDepth := some depth }
+    else if o.pats.any (fun p => p.excl && hasPrefix (p.text ++ slashStr) (relp ++ slashStr)) then .skip ws1
+    else .skip { ws1 with skipDepth := some depth }
+  else if st.seenNames.contains relp then .skip ws1
+  else
+    let name : Str := match o.rebase.find? (fun x => x.1 = inc) with
+      | some (_, r) =>
+        if r = [] then relp
+        else Copy.rebaseLeading relp inc (if r = slashStr then [] else r)
+      | none => relp
+    .add ws1 relp name
+
+/-- the relative name the walk uses for an item (`./x` under IncludeSourceDir with include ".") -/
+def relpOf (o : PackOpts) (inc rel0 : Str) : Str :=
+  if o.includeSourceDir && inc = dot && rel0 ≠ dot then dot ++ slashStr ++ rel0 else rel0
+
 /-- the decision part of the walk callback of `Tarballer.Do` for one visited item -/
 def walkStep (o : PackOpts) (src inc filePath : Str) (kind : Kind) (depth : Nat) (ws0 : WalkSt) (st : PackState) :
     WalkAct :=
-  if (match ws0.skipDepth with | some sd => decide (depth > sd) | none => false) then .skip ws0
+  if skipping ws0.skipDepth depth then .skip ws0
   else
     let ws : WalkSt := { ws0 with skipDepth := none }
     let isDir := kind == .dir
@@ -179,28 +215,9 @@ def walkStep (o : PackOpts) (src inc filePath : Str) (kind : Kind) (depth : Nat)
     | some rel0 =>
       if !o.includeSourceDir && rel0 = dot && isDir then .skip ws
       else
-        let relp := if o.includeSourceDir && inc = dot && rel0 ≠ dot then dot ++ slashStr ++ rel0 else rel0
-        -- exclusion with the ancestor stack
-        let (skip, ws1) : Bool × WalkSt :=
-          if inc ≠ relp then
-            let stack1 := ws.stack.dropWhile (fun top => !hasPrefix relp (top.1 ++ slashStr))
-            let parentInfo : List Bool := match stack1 with | top :: _ => top.2 | [] => []
-            let (sk, info) := mur o.pats relp parentInfo
-            (sk, { ws with stack := if isDir then (relp, info) :: stack1 else stack1 })
-          else (false, ws)
-        if skip then
-          if !isDir then .skip ws1
-          else if !hasExclusions o then .skip { ws1 with skipDepth := some depth }
-          else if o.pats.any (fun p => p.excl && hasPrefix (p.text ++ slashStr) (relp ++ slashStr)) then .skip ws1
-          else .skip { ws1 with skipDepth := some depth }
-        else if st.seenNames.contains relp then .skip ws1
-        else
-          let name : Str := match o.rebase.find? (fun x => x.1 = inc) with
-            | some (_, r) =>
-              if r = [] then relp
-              else Copy.rebaseLeading relp inc (if r = slashStr then [] else r)
-            | none => relp
-          .add ws1 relp name
+        let relp := relpOf o inc rel0
+        let v := verdictOf o inc relp isDir ws
+        walkFinish o inc depth isDir st relp v.1 v.2
 
 /-- the walk callback of `Tarballer.Do` for one include over the pre-order listing -/
 def walkP (o : PackOpts) (src inc : Str) : List (Str × Kind × Nat) → WalkSt → PackState → RProg PackState
